@@ -178,7 +178,7 @@ func EvalVariant(prop, vfile, repo, verif string) Outcome {
 // RunBenign evaluates the property on the three behaviour-preserving transformations
 // (each in its own process, from an in-memory overlay).
 func RunBenign(cfg Config) []Outcome {
-	modes := []string{"rename", "log", "logall", "negif", "guard", "hoist", "msg"}
+	modes := []string{"rename", "log", "logall", "negif", "guard", "hoist", "msg", "elsewrap"}
 	out := make([]Outcome, len(modes))
 	var wg sync.WaitGroup
 	for i, m := range modes {
@@ -218,6 +218,8 @@ func EvalBenign(prop, mode, repo, verif string) Outcome {
 		ov, n, err = HoistOverlay(repo)
 	case "msg":
 		ov, n, err = MessageOverlay(repo)
+	case "elsewrap":
+		ov, n, err = ElseWrapOverlay(repo)
 	default:
 		return Outcome{Name: mode, Outcome: "error", Detail: "unknown mode"}
 	}
